@@ -263,8 +263,74 @@ func curveInitScenario() scenario {
 		threads: []func(interface{}) interface{}{f, f, f}}
 }
 
+// sm2Scenario: package-level SM2 operations on separate data, among them verifications under two
+// RELATED keys (d and n-d share the x coordinate of their public points), so that any package-level
+// state keyed too coarsely is shared between the threads. Scheduling points are the sync operations
+// of the package (curve initialisation, any lock it takes).
+func sm2Scenario() scenario {
+	type fixture struct {
+		k1, k2 *sm2.PrivateKey
+		m1, m2 []byte
+		r1, s1 *big.Int
+		r2, s2 *big.Int
+		ct     []byte
+	}
+	mkKey := func(d *big.Int) *sm2.PrivateKey {
+		c := sm2.P256Sm2()
+		x, y := c.ScalarBaseMult(d.Bytes())
+		return &sm2.PrivateKey{PublicKey: sm2.PublicKey{Curve: c, X: x, Y: y}, D: d}
+	}
+	var fx *fixture
+	var once gosync.Once
+	get := func() *fixture {
+		once.Do(func() {
+			d := sm2k.Alphabet()[8].D
+			f := &fixture{k1: mkKey(d), k2: mkKey(new(big.Int).Sub(sm2.P256Sm2().Params().N, d)), m1: pu.Msg(1, 20), m2: pu.Msg(2, 33)}
+			var err error
+			if f.r1, f.s1, err = sm2.Sm2Sign(f.k1, f.m1, nil, wire20{1}); err != nil {
+				panic(err)
+			}
+			if f.r2, f.s2, err = sm2.Sm2Sign(f.k2, f.m2, nil, wire20{2}); err != nil {
+				panic(err)
+			}
+			if f.ct, err = sm2.Encrypt(&f.k1.PublicKey, pu.Msg(3, 40), wire20{3}, sm2.C1C3C2); err != nil {
+				panic(err)
+			}
+			fx = f
+		})
+		return fx
+	}
+	return scenario{name: "package-level-sm2(related keys)", stmt: false, bound: 2, boundT: 3,
+		setup: func() interface{} { return get() },
+		threads: []func(interface{}) interface{}{
+			func(st interface{}) interface{} {
+				f := st.(*fixture)
+				return sm2.Sm2Verify(&f.k1.PublicKey, f.m1, nil, f.r1, f.s1)
+			},
+			func(st interface{}) interface{} {
+				f := st.(*fixture)
+				return sm2.Sm2Verify(&f.k2.PublicKey, f.m2, nil, f.r2, f.s2)
+			},
+			func(st interface{}) interface{} {
+				f := st.(*fixture)
+				p, err := sm2.Decrypt(f.k1, f.ct, sm2.C1C3C2)
+				return fmt.Sprintf("%x %v", p, err)
+			},
+		}}
+}
+
+// wire20 is a deterministic byte source for the fixtures.
+type wire20 struct{ seed byte }
+
+func (w wire20) Read(p []byte) (int, error) {
+	for i := range p {
+		p[i] = byte(i*7) ^ w.seed ^ 0x5a
+	}
+	return len(p), nil
+}
+
 func scenarios() []scenario {
-	sc := []scenario{blockScenario("ED"), blockScenario("DD"), blockScenario("EE"), blockScenario("EDE"), blockScenario("DDD"), cbcScenario(), helpersScenario(), sm3Scenario(), berScenario()}
+	sc := []scenario{blockScenario("ED"), blockScenario("DD"), blockScenario("EE"), blockScenario("EDE"), blockScenario("DDD"), cbcScenario(), helpersScenario(), sm3Scenario(), berScenario(), sm2Scenario()}
 	return append(append(sc, connScenarios()...), handshakeScenarios()...)
 }
 
